@@ -161,6 +161,7 @@ static int exec_list(struct xm *m, int l)
 }
 
 static long n_glob, n_changed, n_exec_total;
+static int trace_every;
 
 static void one_case(const char **lines, int n, int p, int ng, int rg, int l)
 {
@@ -241,6 +242,11 @@ static void one_case(const char **lines, int n, int p, int ng, int rg, int l)
 		/* one undo restores the text before the global */
 		char *und;
 		n_changed++;
+		if (trace_every && (n_glob % trace_every) == 11) {
+			char inp[6000];
+			snprintf(inp, sizeof(inp), "rs a\np\nq\n.\nrs\nu\n.\n1\n%s\n%sw! out\nu\nw! out2\nq!\n", cmd, feed);
+			nv_trace_ex("", "f", pre, inp, "out", exp, "out2", pre);
+		}
 		ex_command("u");
 		und = lbuf_cp(xb, 0, lbuf_len(xb));
 		if (strcmp(und, pre))
@@ -305,6 +311,7 @@ int main(int argc, char **argv)
 	char errpath[512];
 	nv_init(argc, argv);
 	maxlines = atoi(nv_arg(argc, argv, "lines", nv_thorough ? "5" : "4"));
+	trace_every = atoi(nv_arg(argc, argv, "trace", nv_thorough ? "9973" : "1009"));
 	vfs_put("f", "x\n", -1);
 	dir_init();
 	syn_init();
